@@ -62,10 +62,10 @@ func genObjCases(r *common.Rng) []objCase {
 	g3 := "(defmethod gq ((a string) (b t)) (let (p q) (setq p a q b) (list q p)))"
 	cs = append(cs, objCase{name: "generic-function", own: []string{g1, g2, g3}, object: "'gq",
 		probes: []string{"(gq 1 \"s\")", "(gq \"s\" 2)", "(documentation 'gq 'function)"}})
-	f1 := fmt.Sprintf("(defun fq (x &optional (y %d) &key (k \"s\") j) \"a function\" (let* ((v (+ x y)) (w (* v 2))) (when (> w 0) (setq v w x (+ x 1))) (list v w x k j)))", n(1, 90))
+	f1 := fmt.Sprintf("(defun fq (x &optional (y %d) (z (list x y)) &key (k \"s\") (m (+ x 1)) j) \"a function\" (let* ((v (+ x y)) (w (* v 2))) (when (> w 0) (setq v w x (+ x 1))) (list v w x k j z m)))", n(1, 90))
 	cs = append(cs, objCase{name: "function", own: []string{f1}, object: "'fq",
 		probes: []string{"(fq 1)", "(fq 1 2 :j 3)", "(fq -5 1 :k 4)", "(documentation 'fq 'function)"}})
-	m1 := "(defmacro mq (x &optional (y 2)) (cond ((numberp x) (list '+ x y)) (t (list 'list x y))))"
+	m1 := "(defmacro mq (x &optional (y (list 1 2))) (cond ((numberp x) (list '+ x y)) (t (list 'list x y))))"
 	cs = append(cs, objCase{name: "macro", own: []string{m1}, object: "'mq", probes: []string{"(mq 1)", "(mq 1 5)", "(macroexpand-1 '(mq (car z)))"}})
 	return cs
 }
